@@ -212,7 +212,12 @@ fn build_ttc(rng: &mut Rng) -> Built {
         be32(&mut hdr, d.0 as u32);
     }
     file[..hdr_len].copy_from_slice(&hdr);
-    let index = rng.below(nfonts as u64 + 2) as usize;
+    // member index: in range, just beyond, and usize values that alias a valid index modulo 2^32 / 2^16
+    let index = match rng.below(8) {
+        0 => ((1 + rng.below(3)) << 32) as usize + rng.below(nfonts as u64) as usize,
+        1 => *rng.pick(&[usize::MAX, 1usize << 31, (1usize << 32) - 1, 1usize << 16, (1usize << 16) + 1, 1usize << 63]),
+        _ => rng.below(nfonts as u64 + 2) as usize,
+    };
     let expect = if major == 1 || major == 2 {
         if index < nfonts {
             Some(members[index].clone())
